@@ -268,7 +268,7 @@ Qed.
 
 (** getCoeffsInline = the specification's block reader, on the dequantised block, the end-of-block
     position and the reader position, for every block type, start position and context *)
-Theorem inline_coeffs_eq tp first ctx dqdc dqac g d : tp_ok tp -> 0 <= first < 16 ->
+Theorem inline_coeffs_eq_lookahead tp first ctx dqdc dqac g d : tp_ok tp -> 0 <= first < 16 ->
   both 357 g d ->
   exists g' d', go_get_coeffs tp first ctx dqdc dqac g = (fst (fst (decode_block tp first ctx dqdc dqac d)),
                                                           snd (fst (decode_block tp first ctx dqdc dqac d)), g') /\
